@@ -131,7 +131,7 @@ class ScaleTrackingAutogradFunction(torch.autograd.Function):
         ctx: torch.autograd.function.FunctionCtx, t: Tensor
     ) -> Tuple[Tensor, None, None]:
         ctx.node_meta["metrics"].set_bwd(bwd_tensor=t)  # type: ignore
-        return t.clone(), None, None
+        return t, None, None
 
 
 def _tabulate_graph_data(g: Graph) -> str:  # pragma: no cover
